@@ -95,8 +95,8 @@ def c13(tier):
                 "enumerated description (all type constructors nested three levels, every member kind, comments at every "
                 "level, keywords as names), every proper prefix is rejected or is the description of the complete members, "
                 "and whenever a one-token deletion / duplication / swap is accepted every token is accounted for; "
-                "implementation: each TLC-enumerated description rendered in 4 layouts (tight, conventional, random blanks/"
-                "tabs/LF, CR LF), grammar-driven random descriptions (0..6 members, type depth 0..4, names over every legal "
+                "implementation: each TLC-enumerated description rendered in 5 layouts (tight, conventional, random blanks/"
+                "tabs/LF, CR LF, lone CR), grammar-driven random descriptions (0..6 members, type depth 0..4, names over every legal "
                 "character class, comment texts containing grammar punctuation and non-ASCII) with random layout, token "
                 "deletions / duplications / swaps, illegal and non-ASCII characters, blanks behind ? [] [string], truncation "
                 "at every character of whole texts, byte / character / token soup; every text goes through "
